@@ -31,6 +31,7 @@ type evCase struct {
 type evGenOpt struct {
 	Tree      ck.GenOpt
 	Votes     bool
+	Early     bool // verification messages for checkpoints the node does not know yet (cached, replayed by the node later)
 	BadVotes  bool
 	Restarts  bool
 	MaxEvents int
@@ -61,6 +62,23 @@ func evGen(opt evGenOpt) func(t *rapid.T) evCase {
 				}
 				if opt.BadVotes && rapid.IntRange(0, 4).Draw(t, "badq") == 0 {
 					e.D = rapid.IntRange(1, 4).Draw(t, "bad")
+				}
+				c.Events = append(c.Events, e)
+			case opt.Early && k == 5 && rapid.IntRange(0, 1).Draw(t, "eq") == 0:
+				e := ev{K: "e", A: rapid.IntRange(0, 8).Draw(t, "etgt")}
+				if rapid.IntRange(0, 3).Draw(t, "esrcq") == 0 {
+					e.B = rapid.IntRange(1, 2).Draw(t, "esrc")
+				}
+				switch rapid.IntRange(0, 3).Draw(t, "emask") {
+				case 0:
+					e.C = 1 << uint(rapid.IntRange(0, 9).Draw(t, "eslot"))
+				case 1:
+					e.C = rapid.IntRange(1, 1023).Draw(t, "ebits")
+				default:
+					e.C = 1023
+				}
+				if opt.BadVotes && rapid.IntRange(0, 4).Draw(t, "ebadq") == 0 {
+					e.D = rapid.IntRange(1, 4).Draw(t, "ebad")
 				}
 				c.Events = append(c.Events, e)
 			case opt.Restarts && k == 9 && rapid.IntRange(0, 2).Draw(t, "rq") == 0:
@@ -94,6 +112,7 @@ type hist struct {
 	delivered map[int]bool
 	votes     []voteRec
 	restarts  int
+	early     int // verification bursts sent for a target the node did not know
 	desc      []string
 	ffg       *ffgModel
 	// trace records how each event was resolved (which block, which link); a history replayed on
@@ -134,6 +153,36 @@ func (h *hist) knownCheckpoints() []int {
 	return out
 }
 
+// unknownCheckpoints lists the checkpoint blocks of the world the node has not stored (not yet
+// delivered, or waiting as orphans), in index order.
+func (h *hist) unknownCheckpoints() []int {
+	var out []int
+	for i := 1; i < len(h.w.Blocks); i++ {
+		if h.w.Blocks[i].Block.Height%h.w.P.Epoch == 0 && !h.n.Has(i) {
+			out = append(out, i)
+		}
+	}
+	return out
+}
+
+// settle waits until the node has carried out every queued replay of cached verification
+// messages (they run in a goroutine of the finality engine, started by the first block of an epoch).
+func (h *hist) settle(what string) error {
+	if casper.VerifReplayIdle() {
+		return nil
+	}
+	_, hung, dump := callWithWatchdog(callLimit, func() error {
+		for !casper.VerifReplayIdle() {
+			time.Sleep(20 * time.Microsecond)
+		}
+		return nil
+	})
+	if hung {
+		return hangError("the replay of cached verification messages after "+what, dump)
+	}
+	return nil
+}
+
 const callLimit = 30 * time.Second
 
 // step executes one event; it returns a description and, for a hang, the dump.
@@ -161,18 +210,24 @@ func (h *hist) step(e ev) (string, error) {
 		if derr == nil {
 			h.ffg.observeHeader(i, h.w.Blocks[i].Block)
 		}
+		if err := h.settle(fmt.Sprintf("block #%d", i)); err != nil {
+			return "", err
+		}
 		return fmt.Sprintf("block #%d (h=%d, parent #%d) -> %v", i, h.w.Blocks[i].Block.Height, h.w.Blocks[i].Parent, derr), nil
-	case "v":
+	case "v", "e":
 		var tgt, src int
 		if h.script != nil {
 			r := h.script[len(h.trace)]
-			if r.K != "v" {
+			if r.K != e.K {
 				h.trace = append(h.trace, resolvedEv{K: "noop"})
 				return "noop", nil
 			}
 			tgt, src = r.Tgt, r.Src
 		} else {
 			cps := h.knownCheckpoints()
+			if e.K == "e" {
+				cps = h.unknownCheckpoints()
+			}
 			if len(cps) == 0 {
 				h.trace = append(h.trace, resolvedEv{K: "noop"})
 				return "noop", nil
@@ -180,9 +235,14 @@ func (h *hist) step(e ev) (string, error) {
 			tgt = cps[abs(e.A)%len(cps)]
 			src = h.w.CheckpointBack(tgt, 1+abs(e.B)%3)
 		}
-		h.trace = append(h.trace, resolvedEv{K: "v", Src: src, Tgt: tgt})
+		h.trace = append(h.trace, resolvedEv{K: e.K, Src: src, Tgt: tgt})
+		early := !h.n.Has(tgt)
 		vals := h.w.ValidatorsFor(tgt)
 		d := fmt.Sprintf("votes #%d->#%d (h %d->%d) slots", src, tgt, h.w.Blocks[src].Block.Height, h.w.Blocks[tgt].Block.Height)
+		if early {
+			d = "early " + d
+			h.early++
+		}
 		for slot := 0; slot < len(vals); slot++ {
 			if e.C&(1<<uint(slot)) == 0 {
 				continue
@@ -216,6 +276,9 @@ func (h *hist) step(e ev) (string, error) {
 		if e.D != 0 {
 			d += fmt.Sprintf(" (forged kind %d)", e.D)
 		}
+		if err := h.settle("a verification burst"); err != nil {
+			return "", err
+		}
 		return d, nil
 	case "r":
 		if err := h.n.Restart(); err != nil {
@@ -223,6 +286,9 @@ func (h *hist) step(e ev) (string, error) {
 		}
 		h.restarts++
 		h.trace = append(h.trace, resolvedEv{K: "r"})
+		if err := h.settle("the restart"); err != nil {
+			return "", err
+		}
 		return "restart", nil
 	}
 	h.trace = append(h.trace, resolvedEv{K: "noop"})
